@@ -116,6 +116,31 @@ def rebase (parts : List Part) (slack : Int) (sest : Option Int) (o : Obs) : Exc
     .ok { o with fin := o.fin - s, tmin := if o.n > 0 then o.tmin - s else o.tmin,
                  tmax := if o.n > 0 then o.tmax - s else o.tmax, toks := o.toks.map fun (k, t) => (k, t - s) }
 
+/-- `drain=0` on a LEAF profile: the harness moved the operation counter to the middle, to 7/8 and to the last two
+operations (`fftoks`), then asked once more (`ffover`: -1 the end was reported before operation left0−1, 1 an operation was
+handed out beyond left0−1; `fffin`: the instant reported with the end; `ffleft`: `Left()` after that). Every operation
+below the smallest accepted count must pass the acceptance test at its own index, instants must not decrease, the end is
+at start + duration and nothing is left. -/
+def judgeFF (p : Part) (left0 : Int) (kv : List (String × String)) : String :=
+  match lookup kv "fftoks" with
+  | none => "ok"
+  | some ft =>
+    match parseToks ft, getI? kv "ffover", getI? kv "fffin", getI? kv "ffleft" with
+    | some toks, some over, some fin, some left =>
+        if over == -1 then s!"fail:count:Next() reported the end before operation {left0 - 1}, Left() before start = {left0}"
+        else if over == 1 then s!"fail:count:Next() handed out an operation after operation {left0 - 1}, Left() before start = {left0}"
+        else if fin != p.dur then s!"fail:finish:fin={fin} expected={p.dur} (after operation {left0 - 1})"
+        else if left != 0 then s!"fail:left:Left() = {left} after the last operation"
+        else
+          match toks.find? fun (k, t) => k < p.countRange.1 && !(p.tokenOk k t) with
+          | some (k, t) => s!"fail:time:k={k} t={t}"
+          | none =>
+            let ts := toks.map (·.2)
+            if (List.zip ts (ts.drop 1)).any fun (a, b) => b < a then "fail:order:token times decrease"
+            else if toks.any fun (_, t) => t < 0 || t > p.dur then s!"fail:bounds:an operation outside [0, {p.dur}]"
+            else "ok"
+    | _, _, _, _ => "fail:crash:unparsable fast-forward observation"
+
 /-- `drain=0`: a profile too large to drain (more than 2³¹ operations). Observed: `Left()` before the start, `Left()` after
 `Start` and the first few `Next()`, and those first operations. The count must be in the accepted range (sum over the
 parts), `Left()` must have gone down by the number of operations taken, and each of them must pass the acceptance test of
@@ -132,11 +157,11 @@ def judgeLeftOnly (parts : List Part) (kv : List (String × String)) : String :=
         s!"fail:count:Next() reported the end after {toks.length} operations, Left() before start = {left0}"
       else
         match parts with
-        | p :: _ =>
+        | p :: rest =>
             if p.countRange.1 < toks.length then "ok"
             else match toks.find? fun (k, t) => !(p.tokenOk k t) with
               | some (k, t) => s!"fail:time:k={k} t={t}"
-              | none => "ok"
+              | none => if rest.isEmpty then judgeFF p left0 kv else "ok"
         | [] => "ok"
   | _, _, _ => s!"fail:crash:unparsable observation"
 
